@@ -28,9 +28,9 @@ type Case struct {
 	DSSE     bool     `json:"dsse"`
 }
 
-var dirs = []string{"recorded", "added", "removed", "modified", "line-endings-changed", "empty"}
+var dirs = []string{"recorded", "added", "removed", "modified", "line-endings-changed", "empty", "added-after-directory-link", "added-named-like-inspection-link"}
 var commands = []string{"true", "create-n", "modify-f", "delete-g", "exit-1", "exit-2", "exit-127", "exit-255", "killed", "missing-executable", "empty-command", "stdout-1MiB"}
-var rulesets = []string{"permissive", "match-last-step", "require-f", "create-n", "malformed", "none"}
+var rulesets = []string{"permissive", "match-last-step", "require-f", "create-n", "malformed", "none", "match-strict"}
 
 func h(content string) string {
 	s := sha256.Sum256([]byte(content))
@@ -42,6 +42,12 @@ func dirContent(name string) map[string]string {
 	switch name {
 	case "added":
 		m["extra"] = "E\n"
+	case "added-after-directory-link":
+		// execute() also puts a symbolic link to a directory in front of it (name "aa"): inspections do not follow
+		// such links, and everything else in the directory is still there
+		m["extra"] = "E\n"
+	case "added-named-like-inspection-link":
+		m["sub/i1.link"] = "E\n" // an added file whose base name is that of the first inspection's link file
 	case "removed":
 		delete(m, "g")
 	case "modified":
@@ -108,6 +114,8 @@ func ruleLists(name, prefix string) (mat, prod [][]string) {
 		return [][]string{}, [][]string{} // an inspection that only checks the exit status
 	case "permissive":
 		return [][]string{{"ALLOW", "*"}}, [][]string{{"ALLOW", "*"}}
+	case "match-strict":
+		return [][]string{match, {"DISALLOW", "*"}}, [][]string{match, {"DISALLOW", "*"}}
 	case "match-last-step":
 		return [][]string{match, {"ALLOW", "*.link"}, {"DISALLOW", "*"}}, [][]string{match, {"ALLOW", "*.link"}, {"DISALLOW", "*"}}
 	case "require-f":
@@ -207,7 +215,13 @@ func execute(c *mcx.Ctx, cs Case) (obs, sig, class string) {
 	}
 	logf := filepath.Join(base, "commands.log")
 	for name, content := range dirContent(cs.Dir) {
+		os.MkdirAll(filepath.Dir(filepath.Join(fdir, name)), 0o755)
 		os.WriteFile(filepath.Join(fdir, name), []byte(content), 0o644)
+	}
+	if cs.Dir == "added-after-directory-link" {
+		target := gen.FreshDir(base, "link-target")
+		os.WriteFile(filepath.Join(target, "inside"), []byte("I\n"), 0o644)
+		os.Symlink(target, filepath.Join(fdir, "aa"))
 	}
 	k1 := gen.Key("ed1")
 	prodRules := [][]string{{"ALLOW", "f"}, {"ALLOW", "g"}, {"DISALLOW", "*"}}
